@@ -43,7 +43,7 @@ func c08Safe(f model.Forest) {
 
 func runC08(c *Ctx) bool {
 	nMax := c.Pick(5, 6)
-	gen.ForEachLabeled(nMax, 2, []string{"a.go", "b"}, func(i int, f model.Forest) {
+	gen.ForEachLabeled(nMax, 2, ExtAlphabet, func(i int, f model.Forest) {
 		if !c.Mine(i) {
 			return
 		}
